@@ -128,7 +128,112 @@ def fact_nonlocal_term_count():
     return str(len(_zip_rows(fns[0]))) + "%nat"
 
 
+def fact_registry_groups():
+    """decorator argument groups, in source order (type list (list string) has no sentinel: fail closed by hand)"""
+    try:
+        tree = _tree()
+        groups = []
+        for node in tree.body:
+            if isinstance(node, ast.FunctionDef):
+                for d in node.decorator_list:
+                    if isinstance(d, ast.Call) and getattr(d.func, "id", None) == "_register_qpdbasis_from_instruction":
+                        names = []
+                        for a in d.args:
+                            if not (isinstance(a, ast.Constant) and isinstance(a.value, str)):
+                                raise ValueError("non-literal registry name")
+                            names.append(a.value)
+                        groups.append(names)
+        if not groups:
+            raise ValueError("no registrations")
+        return "[" + "; ".join("[" + "; ".join('"' + n + '"' for n in g) + "]" for g in groups) + "]"
+    except Exception:  # noqa: BLE001
+        return '[["<EXTRACTION-FAILED>"]]'
+
+
+def _aexpr(node, var="theta"):
+    """render an angle expression over {theta, np.pi/2, unary minus, /2} in the notation of show_aexpr"""
+    if isinstance(node, ast.Name) and node.id == var:
+        return "theta"
+    if isinstance(node, ast.UnaryOp) and isinstance(node.op, ast.USub):
+        return "neg(" + _aexpr(node.operand, var) + ")"
+    if isinstance(node, ast.BinOp) and isinstance(node.op, ast.Div) and isinstance(node.right, ast.Constant) and node.right.value == 2:
+        if isinstance(node.left, ast.Attribute) and node.left.attr == "pi" and getattr(node.left.value, "id", None) == "np":
+            return "pihalf"
+        lf = node.left
+        if (isinstance(lf, ast.UnaryOp) and isinstance(lf.op, ast.USub) and isinstance(lf.operand, ast.Attribute)
+                and lf.operand.attr == "pi" and getattr(lf.operand.value, "id", None) == "np"):
+            return "neg(pihalf)"      # -np.pi / 2
+        return "div2(" + _aexpr(node.left, var) + ")"
+    raise ValueError("unrecognised angle expression: " + ast.dump(node))
+
+
+def _calls(fn, name):
+    return [n for n in ast.walk(fn) if isinstance(n, ast.Call) and getattr(n.func, "id", None) == name]
+
+
+def _inner(fn, cls):
+    """argument of the single call qpdbasis_from_instruction(<cls>(<expr>))"""
+    cs = [c for c in _calls(fn, "qpdbasis_from_instruction")]
+    if len(cs) != 1 or len(cs[0].args) != 1:
+        raise ValueError("expected one nested qpdbasis_from_instruction call")
+    g = cs[0].args[0]
+    if not (isinstance(g, ast.Call) and getattr(g.func, "id", None) == cls and len(g.args) == 1 and not g.keywords):
+        raise ValueError("nested call is not " + cls + "(<expr>)")
+    return _aexpr(g.args[0])
+
+
+def fact_angle_flow():
+    tree = _tree()
+    out = []
+    # _theta_from_instruction: theta = float(gate.params[0]) ... return theta, nothing else touches theta
+    tf = [n for n in tree.body if isinstance(n, ast.FunctionDef) and n.name == "_theta_from_instruction"]
+    if len(tf) != 1:
+        raise ValueError("_theta_from_instruction not found")
+    tf = tf[0]
+    v = _assign(tf, "theta")
+    ok = (isinstance(v, ast.Call) and getattr(v.func, "id", None) == "float" and len(v.args) == 1
+          and isinstance(v.args[0], ast.Subscript) and isinstance(v.args[0].value, ast.Attribute) and v.args[0].value.attr == "params"
+          and isinstance(v.args[0].slice, ast.Constant) and v.args[0].slice.value == 0)
+    rets = [n for n in ast.walk(tf) if isinstance(n, ast.Return)]
+    if not ok or len(rets) != 1:
+        raise ValueError("_theta_from_instruction: theta is not float(gate.params[0]) / several returns")
+    out.append(("theta_from_instruction", _aexpr(rets[0].value)))
+    fam = _registered(tree, "rxx")
+    th_assigns = [n for n in ast.walk(fam) if isinstance(n, ast.Assign) and len(n.targets) == 1 and getattr(n.targets[0], "id", None) == "theta"]
+    if len(th_assigns) != 2:
+        raise ValueError("family: expected theta = _theta_from_instruction(gate) and one reassignment")
+    first, second = th_assigns
+    if not (isinstance(first.value, ast.Call) and getattr(first.value.func, "id", None) == "_theta_from_instruction"):
+        raise ValueError("family: theta is not obtained from _theta_from_instruction")
+    out.append(("family.controlled.theta", _aexpr(second.value)))
+    rot = _assign(fam, "rot")
+    if not (isinstance(rot, ast.Call) and len(rot.args) == 1):
+        raise ValueError("family: rot")
+    out.append(("family.controlled.rot", _aexpr(rot.args[0])))
+    out.append(("family.theta_prime", _aexpr(_assign(fam, "theta_prime"))))
+    cs = _registered(tree, "cs")
+    out.append(("cs.theta", _aexpr(_assign(cs, "theta"))))
+    aug = [n for n in ast.walk(cs) if isinstance(n, ast.AugAssign)]
+    if not (len(aug) == 1 and isinstance(aug[0].op, ast.Mult) and getattr(aug[0].target, "id", None) == "theta"
+            and isinstance(aug[0].value, ast.UnaryOp) and isinstance(aug[0].value.op, ast.USub)
+            and isinstance(aug[0].value.operand, ast.Constant) and aug[0].value.operand.value == 1):
+        raise ValueError("cs: theta *= -1 not found")
+    out.append(("cs.csdg_factor", "neg"))
+    out.append(("cs.inner", "crz(" + _inner(cs, "CRZGate") + ")"))
+    cp = _registered(tree, "cp")
+    out.append(("cp.inner", "crz(" + _inner(cp, "CRZGate") + ")"))
+    ph = _calls(cp, "PhaseGate")
+    if len(ph) != 1 or len(ph[0].args) != 1:
+        raise ValueError("cp: PhaseGate")
+    out.append(("cp.phase", _aexpr(ph[0].args[0])))
+    out.append(("csx.inner", "crx(" + _inner(_registered(tree, "csx"), "CRXGate") + ")"))
+    out.append(("csxdg.inner", "crx(" + _inner(_registered(tree, "csxdg"), "CRXGate") + ")"))
+    return "[" + "; ".join('("' + k + '", "' + v + '")' for k, v in out) + "]"
+
+
 FACTS = [
+    ("registry_groups", "list (list string)", fact_registry_groups),
+    ("angle_flow", "list (string * string)", fact_angle_flow),
     ("cx_family_coeffs", "list Q", fact_cx_family_coeffs),
     ("move_table_coeffs", "list Q", fact_move_table_coeffs),
     ("family_coeff_shape", "list string", fact_family_coeff_shape),
